@@ -220,6 +220,55 @@ class Harness:
             if not ok:
                 self.failed_concrete.append(name)
 
+    def derive(self, name, goal, from_, opaque=()):
+        """Explicit proof step: `goal` follows from the listed facts ALONE (each of which must already hold on this path),
+        with the `opaque` sub-terms generalised to fresh symbols.  Keeps the query independent of the rest of the path."""
+        if not self.symbolic:
+            self.check(name, goal)
+            return
+        c = self.ctx
+        known = getattr(self, "_derived", None)
+        if known is None:
+            known = self._derived = set()
+        for k, f in enumerate(from_):
+            fz = to_z3_bool(f)
+            if fz.get_id() in known or z3.is_true(z3.simplify(fz)):
+                continue
+            c.solver.push()
+            c.solver.add(z3.Not(fz))
+            r = c.solver.check()
+            c.solver.pop()
+            if r != z3.unsat:
+                self.results.append((name, "unknown", None, f"premise {k} of the derivation is not established on this path"))
+                return
+        subs = [(lift_real(t), z3.Real(c.fresh_name(f"opaque{i}"))) for i, t in enumerate(opaque)]
+        s = z3.Solver()
+        s.set("timeout", c.timeout_ms)
+        for f in from_:
+            s.add(z3.substitute(to_z3_bool(f), *subs) if subs else to_z3_bool(f))
+        g = to_z3_bool(goal)
+        s.add(z3.substitute(z3.Not(g), *subs) if subs else z3.Not(g))
+        t0 = time.time()
+        r = s.check()
+        c.queries += 1
+        c.solver_s += time.time() - t0
+        how = "z3"
+        if r != z3.unsat:
+            # the derivation is a small self-contained query: give it to cvc5 as well before falling back to the full path query
+            try:
+                if _cvc5_check(s.to_smt2(), c.timeout_ms) == "unsat":
+                    r, how = z3.unsat, "cvc5"
+            except Exception:
+                pass
+        if r == z3.unsat:
+            # the derived fact is remembered for later derivations but NOT pushed into the path solver
+            self.results.append((name, "discharged", None, f"{time.time() - t0:.3f}s" if how == "z3" else "cvc5/alt"))
+            known.add(g.get_id())
+        else:
+            self._check_sym(name, goal, None)
+            if self.results and self.results[-1][0] == name and self.results[-1][1] == "discharged":
+                known.add(g.get_id())
+
     def _check_opaque(self, name, cond, opaque):
         c = self.ctx
         goal = to_z3_bool(cond)
